@@ -27,8 +27,9 @@ Blocks == [kind : {"block"}, payload : {"empty", "one_byte", "large"}]
 TQCs == [kind : {"tqc"}, groups : {0, 1, 2}]
 NetAddrs == [kind : {"netaddr"}, version : {"0", "max"}, ts : {"0", "max"}]
 Geneses == [kind : {"genesis"}, schedule : BOOLEAN, first : {"0", "max"}]
-States == [kind : {"replica_state"}, proposals : {0, 1, 2}, payload : {"empty", "one_byte"}, certs : BOOLEAN]
-Cases == SockAddrs \cup Durations \cup Utcs \cup BitVecs \cup Rates \cup Proposals \cup Timeouts \cup Commits \cup Blocks \cup TQCs \cup NetAddrs \cup Geneses \cup States
+States == [kind : {"replica_state"}, proposals : {0, 1, 2}, payload : {"empty", "one_byte"}, certs : BOOLEAN, phase : {"prepare", "commit", "timeout"}]   \* every value of every enumeration
+Schedules == [kind : {"schedule"}, mode : {"rr", "weighted"}, freq : {"0", "1", "max"}, nonleader : BOOLEAN]
+Cases == Schedules \cup SockAddrs \cup Durations \cup Utcs \cup BitVecs \cup Rates \cup Proposals \cup Timeouts \cup Commits \cup Blocks \cup TQCs \cup NetAddrs \cup Geneses \cup States
 ASSUME \A c \in Cases : PrintT(<<"CASE", ToJson(c @@ [lossless |-> TRUE])>>)
 VARIABLE x
 Init == x = 0
